@@ -164,11 +164,11 @@ func main() {
 			for try := 0; try < 40; try++ {
 				r = rng.New(*seed^0xFA17FA17, uint64(i*40+try))
 				h = genHistory(r, *tier == "thorough" && i%25 == 0)
-				if len(h.Tracks) == 1 && h.Variant != 3 {
+				if len(h.Tracks) == 1 {
 					break
 				}
 			}
-			if len(h.Tracks) != 1 || h.Variant == 3 {
+			if len(h.Tracks) != 1 {
 				continue
 			}
 			if i%3 == 2 && h.Variant == 1 {
@@ -184,7 +184,11 @@ func main() {
 				fhs = append(fhs, h)
 				continue
 			}
-			// each NewFile call after the first two fails with probability 1/6
+			// each NewFile call after the first two fails with probability 1/6; one history in three also loses the
+			// second call (the segment the first rotation opens)
+			if r.Fork(0xF1257).Bool(1, 3) {
+				h.Faults = append(h.Faults, 1)
+			}
 			for k := 2; k < 600; k++ {
 				if r.Bool(1, 6) {
 					h.Faults = append(h.Faults, k)
